@@ -60,7 +60,7 @@ def run(ctx):
     hs = wmmlib.build_sys()
     q = ctx.tier == "quick"
     sj = [wmmlib.sys_job(hs, "sys", 0, 2, "l1,R0"), wmmlib.sys_job(hs, "sys", 0, 2, "l1,l2,R0"), wmmlib.sys_job(hs, "sys", 0, 1, "l1,B0,c0,l2"),
-          wmmlib.sys_job(hs, "sys", 0, 2, "l1,B0,c0,l2,B1"), wmmlib.sys_job(hs, "sys", 1, 2, "R0", "l1,R0"), wmmlib.sys_job(hs, "sys", 0, 2, "l1,B0,x0")]
+          wmmlib.sys_job(hs, "sys", 0, 2, "l1,B0,c0,l2,B1"), wmmlib.sys_job(hs, "sys", 0, 2, "R0", "l1,R0"), wmmlib.sys_job(hs, "sys", 0, 3, "R0", "R0"), wmmlib.sys_job(hs, "sys", 0, 2, "l1,B0,x0")]
     if not q:
         sj += [wmmlib.sys_job(hs, "sys", 1, 1, "l1,B0", "l1", deadline=1500), wmmlib.sys_job(hs, "sys", 1, 2, "l1,R0", "l1,R0", deadline=1500),
                wmmlib.sys_job(hs, "sys", 0, 3, "l1,B0,c0,l2,B1,c0,l3", deadline=1500), wmmlib.sys_job(hs, "sys", 1, 1, "B0", "l1,B0", deadline=1500)]
